@@ -665,7 +665,7 @@ def _local_population(
     """
     xy = grid_j - grid_i
     if cell is not None:
-        xy -= np.round(xy / cell) * cell
+        xy = xy - np.round(xy / cell) * cell
 
     wl = np.exp(-0.5 / sigma_squared * np.sum(xy**2, axis=1)) * grid_j_weight
     num = np.sum(wl)
